@@ -112,6 +112,42 @@ def strip_tl(wire):
     return wire[vs:ve]
 
 
+DETERMINISTIC = ('none', 'digest', 'hmac', 'null', 'ed25519')     # digest-int adds a signature time and nonce by design
+
+
+def snap(x):
+    """Comparable snapshot of an argument object (names, byte strings, InterestParam / MetaInfo models)."""
+    if x is None or isinstance(x, (bool, int, str)):
+        return x
+    if isinstance(x, (bytes, bytearray, memoryview)):
+        return bytes(x)
+    if isinstance(x, (list, tuple)):
+        return [snap(v) for v in x]
+    if hasattr(type(x), '_encoded_fields'):
+        return {f.name: snap(getattr(x, f.name, None)) for f in type(x)._encoded_fields if hasattr(f, 'name')}
+    if isinstance(x, dict):
+        return {k: snap(v) for k, v in x.items()}
+    if hasattr(x, '__dict__'):
+        return {k: snap(v) for k, v in vars(x).items() if not k.startswith('_')}
+    return repr(x)
+
+
+def again(ctx, label, w, fn, wire, before, args_after, kind):
+    """Encoding is a function of its arguments: the arguments are left as they were, and (for signers without randomness)
+    a second call with the same argument objects yields the same bytes."""
+    if before != args_after():
+        ctx.report(f'{label}-modifies-its-arguments', 'an argument object (name / parameters / MetaInfo / payload) was modified by the encoder', w)
+    if kind in DETERMINISTIC:
+        try:
+            second = bytes(fn())
+        except Exception as e:   # noqa
+            ctx.report(f'{label}-second-call-raises:{type(e).__name__}@{raising_site(e)[0]}', f'second call with the same arguments raised {e!r}', w)
+            return
+        ctx.event('encoded-twice')
+        if second != wire:
+            ctx.report(f'{label}-not-repeatable:{kind}', 'a second call with the same argument objects produced other bytes', dict(w, second=second[:200]))
+
+
 def do_data(ctx, rng, comps, meta, mexp, content, kind, sinfo_tuple=None, target=None):
     signer, sinfo = sinfo_tuple or pkts.make_signer(rng, kind)
     form, fl = pkts.name_form(rng, comps)
@@ -119,6 +155,7 @@ def do_data(ctx, rng, comps, meta, mexp, content, kind, sinfo_tuple=None, target
          'signer': {k: v for k, v in sinfo.items() if k in ('kind', 'reserve', 'write')}}
     try:
         cform = content if content is None or rng.random() < 0.6 else rng.choice([bytearray, memoryview])(content)
+        before = snap([form, meta, cform])
         if rng.random() < 0.3:
             wire = bytes(make_data(name=form, meta_info=meta, content=cform, signer=signer))
         else:
@@ -127,6 +164,8 @@ def do_data(ctx, rng, comps, meta, mexp, content, kind, sinfo_tuple=None, target
         ctx.report(f'make-data-raises:{type(e).__name__}@{raising_site(e)[0]}', f'make_data raised {e!r}', w)
         return None
     w['wire'] = wire if len(wire) < 600 else wire[:200]
+    if len(wire) < 3000 and sinfo.get('kind') != 'var':
+        again(ctx, 'make-data', w, lambda: make_data(form, meta, cform, signer), wire, before, lambda: snap([form, meta, cform]), kind)
     try:
         p = rc.strict_data(wire)
     except rc.Reject as e:
@@ -201,12 +240,15 @@ def do_interest(ctx, rng, comps, param, pexp, app_param, kind, placeholder_at=No
          'signer': {k: v for k, v in sinfo.items() if k in ('kind', 'reserve', 'write')}, 'placeholder_at': placeholder_at}
     try:
         aform = app_param if app_param is None or rng.random() < 0.6 else rng.choice([bytearray, memoryview])(app_param)
+        before = snap([form, param, aform])
         wire, final_name = make_interest(form, param, aform, signer, need_final_name=True)
         wire = bytes(wire)
     except Exception as e:   # noqa
         ctx.report(f'make-interest-raises:{type(e).__name__}@{raising_site(e)[0]}', f'make_interest raised {e!r}', w)
         return None
     w['wire'] = wire if len(wire) < 600 else wire[:200]
+    if len(wire) < 3000 and sinfo.get('kind') != 'var' and not (kind in ('digest-int', 'hmac', 'ed25519') and signer is not None and sinfo.get('for_interest_time')):
+        again(ctx, 'make-interest', w, lambda: make_interest(form, param, aform, signer), wire, before, lambda: snap([form, param, aform]), kind)
     try:
         p = rc.strict_interest(wire)
     except rc.Reject as e:
